@@ -156,6 +156,16 @@ DoSSLRequest ==
              \/ emit' = <<CloseEv>> /\ Closed /\ UNCHANGED ssl
     /\ UNCHANGED <<cfg, mwi, cparams, eof, faulted, stmts, portals, skip, hq, h>>
 
+\* A GSSENCRequest (what libpq sends first with gssencmode=prefer): GSS encryption is not supported. The library
+\* ends the connection without an answer; declining with the single byte 'N' (what PostgreSQL does) is not excluded.
+\* Either way nothing about a later SSLRequest changes.
+DoGSSRequest ==
+    /\ Reading("startup") /\ Head1.t = "GSSENC"
+    /\ Consume
+    /\ \/ emit' = <<CloseEv>> /\ Closed /\ UNCHANGED ssl
+       \/ ssl \in {"none", "refused"} /\ emit' = <<Rv(MsgSSL("N"))>> /\ UNCHANGED <<ssl, phase>>
+    /\ UNCHANGED <<cfg, mwi, cparams, eof, faulted, stmts, portals, skip, hq, h>>
+
 \* The TLS handshake completes (environment: the client's TLS stack reports it).
 TLSDone ==
     /\ ssl = "tlsp" /\ phase = "startup"
@@ -651,7 +661,7 @@ ApiErrorCode(isnil, e) ==
 
 ---------------------------------------------------------------------------
 
-Preamble == DoStartup \/ DoSSLRequest \/ DoStuffedDrop \/ TLSAbort \/ DoCancel \/ DoStartupReject
+Preamble == DoStartup \/ DoSSLRequest \/ DoGSSRequest \/ DoStuffedDrop \/ TLSAbort \/ DoCancel \/ DoStartupReject
             \/ DoPassword \/ DoNotPassword
             \/ WriteServerParams \/ Middleware \/ FirstReady
 
